@@ -2,6 +2,8 @@
 
 package pebble
 
+import "github.com/cockroachdb/pebble/internal/manifest"
+
 // VerifWaitIdle waits, without any clock, until no flush, compaction or download is running and
 // nothing more gets scheduled: under DB.mu it asks the DB to schedule whatever is pending and waits
 // on the compaction condition variable (the pattern compactMarkedFilesLocked uses).
@@ -25,4 +27,11 @@ func (d *DB) VerifWaitIdle() {
 		}
 		return
 	}
+}
+
+// VerifPinnedVersion returns the current version pinned through a read state (as an iterator pins
+// it), so that none of its files can be deleted until release is called.
+func (d *DB) VerifPinnedVersion() (v *manifest.Version, release func()) {
+	rs := d.loadReadState()
+	return rs.current, rs.unref
 }
